@@ -89,6 +89,47 @@ fn budget(prop: &str, tier: &str) -> (u32, u32, u64) {
     }
 }
 
+/// Run all shards of a completely enumerated sub-space in parallel worker processes.
+fn run_exhaustive(prop: &str, shards: usize) -> (serde_json::Value, Option<serde_json::Value>) {
+    let exe = std::env::current_exe().expect("exe");
+    let started = Instant::now();
+    let children: Vec<_> = (0..shards)
+        .map(|i| std::process::Command::new(&exe).arg("exhaustive").arg(prop).arg(i.to_string()).arg(shards.to_string()).env("RAYON_NUM_THREADS", "1").stdout(std::process::Stdio::piped()).stderr(std::process::Stdio::null()).spawn().expect("spawn"))
+        .collect();
+    let mut total = serde_json::json!({});
+    let mut failure = None;
+    let mut complete = true;
+    for c in children {
+        let out = c.wait_with_output().expect("wait");
+        let text = String::from_utf8_lossy(&out.stdout).to_string();
+        let Some(line) = text.lines().rev().find(|l| l.starts_with("RESULT ")) else {
+            complete = false;
+            continue;
+        };
+        let v: serde_json::Value = serde_json::from_str(&line[7..]).unwrap_or(serde_json::Value::Null);
+        if let Some(m) = v.as_object() {
+            for (k, x) in m {
+                if let Some(n) = x.as_u64() {
+                    total[k] = serde_json::json!(total[k].as_u64().unwrap_or(0) + n);
+                }
+            }
+        }
+        if !v["failure"].is_null() {
+            complete = false;
+            if failure.is_none() {
+                failure = Some(v["failure"].clone());
+            }
+        }
+    }
+    total["exhaustive"] = serde_json::json!(complete);
+    total["wall_s"] = serde_json::json!(started.elapsed().as_secs_f64());
+    total["bound"] = serde_json::json!(match prop {
+        "C12" => "every network of the small family: 1-3 activities (trip with origin/destination in {L0,L1} or maintenance slot), start tick 0..5, duration 1-2 ticks, x shunting minimal {0,1 tick} x dead-head shunting {0,1 tick} x dead-head time {0,1,3 ticks} x dead-heads forbidden {no,yes}; for each network every chain as tour (real depot pair, overflow pair, dummy) x every chain as path (with/without leading/trailing depot) x every segment",
+        _ => "28 base setups (first library-generated tapes with 3 or 4 vehicles, each with alternative depots); for each EVERY operation sequence over {update_vehicle, add_vehicle_to_own_cycle, remove_vehicle, add_vehicle_at_the_end, move_vehicle, replace_cycle(three_opt i<j<k), two neighbours updated/removed in a row through updated_tours} with every argument valid in the model, up to depth 5 (3 vehicles) / depth 4 (4 vehicles)",
+    });
+    (total, failure)
+}
+
 fn main() {
     let args: Vec<String> = std::env::args().collect();
     let cmd = args.get(1).map(|s| s.as_str()).unwrap_or("");
@@ -159,8 +200,21 @@ fn main() {
                 engine_name: engine.name().to_string(),
                 extra: engine.extra_evidence(),
             };
-            let regress = run_regressions(engine.as_ref(), &prop);
+            let mut regress = run_regressions(engine.as_ref(), &prop);
             let agg = run_parent(&spec, &[]);
+            let mut spec = spec;
+            if tier == "thorough" && (prop == "C12" || prop == "C15") {
+                let (summary, failure) = run_exhaustive(&prop, 14);
+                if !spec.extra.is_object() {
+                    spec.extra = serde_json::json!({});
+                }
+                spec.extra["exhaustive_subspace"] = summary;
+                if let Some(f) = failure {
+                    let p = runner::verif_root().join("replay").join(&prop).join(format!("{}_exhaustive.json", prop));
+                    runner::write_json(&p, &serde_json::json!({"property": prop, "engine": engine.name(), "tier": "thorough", "exhaustive_case": f["exhaustive_case"], "message": f["message"], "decoded_case": f["decoded_case"]}));
+                    regress.violations.push((p, f["message"].as_str().unwrap_or("").to_string()));
+                }
+            }
             finish(&spec, &agg, &regress, started)
         }
         "case" => {
@@ -203,6 +257,20 @@ fn main() {
                     eprintln!("   -> {} at {}: dist {} time {}", net.node(m).id(), net.locations().get_id(net.node(m).start_location()).unwrap(), net.dead_head_distance_between(n, m), net.dead_head_time_between(n, m));
                 }
             }
+            0
+        }
+        "exhaustive" => {
+            // exhaustive <prop> <shard> <nshards>: one shard of a completely enumerated sub-space
+            sut::silence_stdout();
+            sut::install_panic_hook();
+            let shard: usize = args[3].parse().unwrap();
+            let n: usize = args[4].parse().unwrap();
+            let v = match args[2].as_str() {
+                "C12" => engine_tour::exhaustive_shard(shard, n),
+                "C15" => engine_transition_exh::exhaustive_shard(shard, n),
+                _ => serde_json::Value::Null,
+            };
+            sut::outln(&format!("RESULT {}", v));
             0
         }
         "gen-corpus" => {
@@ -255,6 +323,20 @@ fn main() {
             let s = std::fs::read_to_string(&path).expect("read replay file");
             let v: serde_json::Value = serde_json::from_str(&s).expect("parse");
             let tier = v["tier"].as_str().unwrap_or("quick").to_string();
+            if !v["exhaustive_case"].is_null() {
+                let msgs: Vec<String> = match prop.as_str() {
+                    "C12" => engine_tour::exhaustive_case_from_json(&v["exhaustive_case"]).map(|inst| engine_tour::TourEngine::new("thorough").eval_inst(&inst, 0).findings.into_iter().filter(|f| f.prop == "C12").map(|f| f.msg).collect()).unwrap_or_default(),
+                    "C15" => engine_transition_exh::replay_exhaustive_case(&v["exhaustive_case"]),
+                    _ => Vec::new(),
+                };
+                sut::outln(&format!("reproduced {}/1", usize::from(!msgs.is_empty())));
+                if let Some(m) = msgs.first() {
+                    sut::outln(&format!("VIOLATION property={} replay={}", prop, path.display()));
+                    sut::outln(&format!("  {}", m));
+                    std::process::exit(1);
+                }
+                std::process::exit(0);
+            }
             let engine = make_engine(prop, &tier).expect("engine");
             replay(engine.as_ref(), prop, &path, 5)
         }
